@@ -52,7 +52,7 @@ impl Config {
     }
 }
 
-fn settled_with_pids(n: usize, pids: &[u128]) -> Result<NetWorld, String> {
+pub fn settled_with_pids(n: usize, pids: &[u128]) -> Result<NetWorld, String> {
     // bring nodes up one after the other (fixed policy); the election decides who is primary
     let mut w = NetWorld::new(n, pids);
     let jw = Worker::spawn("join-n1", &w.nodes[0].node, false);
